@@ -53,6 +53,7 @@ type member struct {
 	feed   chan feedReq
 	closed chan struct{}
 	gate   *wgate
+	cerr   bool // Close reports an error (after closing)
 }
 
 // wgate makes the next Write of any member block inside the member until it is released.
@@ -124,6 +125,9 @@ func (m *member) Close() error {
 	m.closes++
 	if m.closes == 1 {
 		close(m.closed)
+	}
+	if m.cerr {
+		return fmt.Errorf("member %s: broken pipe", m.id)
 	}
 	return nil
 }
@@ -261,7 +265,9 @@ func run(sc *h.Scenario) *h.Rec {
 	mode, _ := sc.P["mode"].(string)
 	wait, _ := sc.P["wait"].(bool)
 	rr := strs(sc.P["rr"])
-	rec.Log("Reset", "kind", sc.Kind, "p", h.Ev{"members": ids, "init": initID, "mode": mode, "wait": wait})
+	cerr := strs(sc.P["closeErr"])
+	sort.Strings(cerr)
+	rec.Log("Reset", "kind", sc.Kind, "p", h.Ev{"members": ids, "init": initID, "mode": mode, "wait": wait, "closeErr": cerr})
 	defer rec.Log("End")
 
 	if mode == "lastused-unattached" {
@@ -281,6 +287,11 @@ func run(sc *h.Scenario) *h.Rec {
 	for i, id := range ids {
 		m := newMember(id, i, len(ids))
 		m.gate = gate
+		for _, x := range cerr {
+			if x == id {
+				m.cerr = true
+			}
+		}
 		members[id] = m
 		isMember[id] = true
 		if i%2 == 1 {
